@@ -200,7 +200,10 @@ class BufImpl(ImplBase):
         self.next_delay = 0
         if family == "bufedge":
             from factorysimpy.edges.buffer import Buffer
-            self.edge = Buffer(self.env, "B", capacity=int(cap), delay=lambda: t2f(self.next_delay), mode=mode)
+            self.ndraws = 0; self.naccepted = 0
+            def _draw():
+                self.ndraws += 1; return t2f(self.next_delay)
+            self.edge = Buffer(self.env, "B", capacity=int(cap), delay=_draw, mode=mode)
             self.edge.src_node = _DummyNode("src"); self.edge.dest_node = _DummyNode("dst")
             self.store = self.edge.inbuiltstore
             self.api = self.edge
@@ -236,7 +239,14 @@ class BufImpl(ImplBase):
             it = self.item(i, kd)
             if self.edge is not None:
                 self.next_delay = d
-                return self.fmt(self.call(a, api.put, self.tok(t), it), "ok")
+                r = self.fmt(self.call(a, api.put, self.tok(t), it), "ok")
+                if self.family == "bufedge":       # (Fleet and the conveyors take no per-item delay)
+                    if r == "ok":
+                        self.naccepted += 1
+                        if self.ndraws != self.naccepted:      # one draw per accepted put, none anywhere else (a rejected put may draw or not)
+                            r += f" !draws={self.ndraws}/{self.naccepted}"
+                    self.ndraws = self.naccepted
+                return r
             return self.fmt(self.call(a, api.put, self.tok(t), (it, t2f(d))), "ok")
         if k == "get":
             return self.fmt(self.call(op[1], api.get, self.tok(op[2])), "item")
